@@ -8,6 +8,7 @@
 //	    (factory call, Bind by instance i, Shoot start / end in goroutine r), objects and goroutines
 //	    numbered by first appearance, joined by ','.  The trace is schedule dependent; the model
 //	    accepts or rejects it.
+//	ammo <ninst> <rps> <dur_ms> <stall_ms> <discard 0|1>     (see ammo.go)
 //	sched <ninst> <nparts> <perinst 0|1>
 //	    the real engine with mock gun/provider (ammo never runs out) and a REAL composite rps schedule of
 //	    nparts alternating once(k) / unlimited(1ms) parts (shared by the instances unless perinst):
@@ -22,7 +23,8 @@
 //	race <pool> <ninst> <nshots> <variant>
 //	    (run in a subprocess of the -race build) N instances of a pool kind under the real engine
 //	    against in-process targets; observation = clean | race:<functions> | fatal:<message>
-//	    pool = http | httpscen | grpc | grpcscen ; variant: http/grpc 0|1 = shared client off/on;
+//	    pool = http | httpscen | grpc | grpcscen | ammo (recycling provider, variant 1 = discard_overflow
+//	    with a stalled first shot) ; variant: http/grpc 0|1 = shared client off/on;
 //	    scenarios 0 = [next] only, 1 = +[rand], 2 = +randString, 3 = +randInt and uuid
 package main
 
@@ -328,6 +330,8 @@ func runCase(c string) (res string) {
 		return runOwn(f)
 	case "sched":
 		return runSched(f)
+	case "ammo":
+		return runAmmo(f)
 	case "agrpc":
 		return runAliasGRPC(f)
 	case "ahttp":
@@ -345,9 +349,20 @@ func main() {
 	}
 	vh.Main(gen, func(cases []string) []string {
 		out := make([]string, len(cases))
+		// the ammo cases (mock components only, seconds of deliberate stall) run beside the others
+		var wg sync.WaitGroup
 		for i, c := range cases {
-			out[i] = runCase(c)
+			if strings.HasPrefix(c, "ammo ") {
+				wg.Add(1)
+				go func(i int, c string) { defer wg.Done(); out[i] = runCase(c) }(i, c)
+			}
 		}
+		for i, c := range cases {
+			if !strings.HasPrefix(c, "ammo ") {
+				out[i] = runCase(c)
+			}
+		}
+		wg.Wait()
 		stopTargets()
 		return out
 	})
